@@ -37,7 +37,23 @@ PATTERNS = [
     "z/a.{}.gz",
     "arch/{}/a.{}.log",
     "zs/a.{}.zst",
+    # a file name that is only an extension-like word has NO extension (Path::extension of ".gz" is None): plain copy
+    "dotf/{}/.gz",
+    "dotz{}/.zst",
+    # a pattern is an opaque string: trailing line breaks belong to the archive's name (and "gz\n" is not "gz")
+    "nl/a.{}.log\n",
+    "nl/b.{}.gz\r\n",
 ]
+
+
+def rust_extension(path):
+    """std::path::Path::extension of the pattern text"""
+    comps = [c for c in path.split("/") if c not in ("", ".")]
+    if not comps or comps[-1] == "..":
+        return None
+    name = comps[-1]
+    i = name.rfind(".")
+    return None if i <= 0 else name[i + 1:]
 
 
 def env_for(pattern, b, c):
@@ -62,7 +78,7 @@ def mk(kind, b, c, pattern, file, present, ops, extra=()):
     init += [[file + ".bak", b"bak"], [pattern.replace("{}", "x").replace("$ENV{", "E").replace("}", ""), b"by1"],
              ["unrelated/deep/f.txt", b"by2"]]
     init += [list(e) for e in extra]
-    gz = 1 if pattern.endswith((".gz", ".zst")) else 0     # compressed (gzip or zstd): one abstract codec in the model
+    gz = 1 if rust_extension(pattern) in ("gz", "zst") else 0     # compressed (gzip or zstd): one abstract codec in the model
     return [kind, b, c, gz, pattern, env, file, init, ops]
 
 
